@@ -53,14 +53,14 @@ theorem forge_entered_only_by_hunted_check (s s' : State) (e : Event) (o : Out) 
   cases e with
   | rxOther => simp only [step] at hs; cases hs; exact frame rfl
   | rxProbe a b c d => simp only [step] at hs; split at hs <;> (cases hs; exact frame rfl)
-  | rxRequest a b => simp only [step] at hs; split at hs <;> (cases hs; exact frame rfl)
+  | rxRequest _e a b => simp only [step] at hs; split at hs <;> (cases hs; exact frame rfl)
   | reply a =>
     simp only [step] at hs
     split at hs
     · cases hs; exact frame rfl
     · cases hs
   | close => simp only [step] at hs; cases hs; exact frame rfl
-  | stopHunt m => simp only [step] at hs; cases hs; exact frame rfl
+  | stopHunt m _ip => simp only [step] at hs; cases hs; exact frame rfl
   | startHunt m v =>
     simp only [step] at hs
     split at hs
@@ -133,10 +133,27 @@ theorem forge_entered_only_by_hunted_check (s s' : State) (e : Event) (o : Out) 
 
 /-- an immediate forged reply is decided exactly when the asking MAC is in the hunt list and asks for
     the router -/
-theorem reply_decided_iff (s : State) (smac : Bytes) (toRouter : Bool) :
-    step s (.rxRequest smac toRouter) =
+theorem reply_decided_iff (s : State) (esrc smac : Bytes) (toRouter : Bool) :
+    step s (.rxRequest esrc smac toRouter) =
       some (if smac ∈ s.hunt ∧ toRouter = true then { s with replies := smac :: s.replies } else s, .none) := by
   simp only [step]; split <;> rfl
+
+/-- the immediate-reply decision is keyed on the ARP sender hardware address: the Ethernet source of
+    the frame (a bridge relaying the request) plays no role – a hunted bridge relaying the request of
+    a host that is not hunted gets no forged reply for it, a hunted host asking through a bridge does -/
+theorem reply_keyed_on_arp_sender (s : State) (e1 e2 smac : Bytes) (toRouter : Bool) :
+    step s (.rxRequest e1 smac toRouter) = step s (.rxRequest e2 smac toRouter) := rfl
+
+/-- StopHunt is keyed on the MAC: the IP passed with it (host changed address, or shares it with
+    another hunted MAC) plays no role, and no other MAC leaves the hunt list -/
+theorem stopHunt_keyed_on_mac (s : State) (mac ip1 ip2 : Bytes) :
+    step s (.stopHunt mac ip1) = step s (.stopHunt mac ip2) ∧
+    ∀ s' o, step s (.stopHunt mac ip1) = some (s', o) → ∀ m, m ≠ mac → (m ∈ s'.hunt ↔ m ∈ s.hunt) := by
+  refine ⟨rfl, ?_⟩
+  intro s' o hs m hm
+  simp only [step] at hs
+  cases hs
+  exact List.mem_erase_of_ne hm
 
 /-- **Probe-reject rule**: a probe is answered with a reject reply iff the probing MAC holds an
     outstanding DHCP offer for a different address and the probed address lies in the home LAN; the
@@ -180,7 +197,8 @@ theorem hunt_nodup (tr : List Event) (s : State) (os : List Out) (hr : run {} tr
 
 /-- StopHunt removes the MAC -/
 theorem stopHunt_removes (tr : List Event) (s s' : State) (os : List Out) (o : Out) (mac : Bytes)
-    (hr : run {} tr = some (s, os)) (hs : step s (.stopHunt mac) = some (s', o)) : mac ∉ s'.hunt := by
+    (hr : run {} tr = some (s, os)) (ip : Bytes)
+    (hs : step s (.stopHunt mac ip) = some (s', o)) : mac ∉ s'.hunt := by
   have hn := (inv_run inv_init hr).nodup
   simp only [step] at hs
   cases hs
@@ -243,25 +261,35 @@ def macA : Bytes := [2, 0xaa, 0, 0, 0, 1]
 def macB : Bytes := [2, 0xaa, 0, 0, 0, 2]
 
 /-- hunted host: forged frame each cycle; after StopHunt one restoring request, then the loop is done -/
-example : (run {} [.startHunt macA true, .check 0, .gate 0, .forge 0, .wake 0, .stopHunt macA, .check 0, .gate 0,
+example : (run {} [.startHunt macA true, .check 0, .gate 0, .forge 0, .wake 0, .stopHunt macA [], .check 0, .gate 0,
     .exitRead 0, .restore 0]).map (·.2) =
     some [.startOk, .none, .none, .forged macA, .none, .none, .none, .none, .none, .restoring macA] := by decide
 
 /-- nothing more after the restoring request -/
-example : run {} [.startHunt macA true, .stopHunt macA, .check 0, .gate 0, .exitRead 0, .restore 0, .wake 0] = none := by
+example : run {} [.startHunt macA true, .stopHunt macA [], .check 0, .gate 0, .exitRead 0, .restore 0, .wake 0] = none := by
   decide
-example : run {} [.startHunt macA true, .stopHunt macA, .check 0, .gate 0, .exitRead 0, .restore 0, .forge 0] = none := by
+example : run {} [.startHunt macA true, .stopHunt macA [], .check 0, .gate 0, .exitRead 0, .restore 0, .forge 0] = none := by
   decide
 
 /-- the in-flight forged frame: the loop passed check and gate before StopHunt -/
-example : (run {} [.startHunt macA true, .check 0, .gate 0, .stopHunt macA, .forge 0, .wake 0, .check 0, .gate 0,
+example : (run {} [.startHunt macA true, .check 0, .gate 0, .stopHunt macA [], .forge 0, .wake 0, .check 0, .gate 0,
     .exitRead 0, .restore 0]).map (·.2) =
     some [.startOk, .none, .none, .none, .forged macA, .none, .none, .none, .none, .restoring macA] := by decide
 
 /-- immediate reply only for a hunted asker -/
-example : (run {} [.startHunt macA true, .rxRequest macA true, .reply macA, .rxRequest macB true]).map (·.2) =
+example : (run {} [.startHunt macA true, .rxRequest macA macA true, .reply macA, .rxRequest macB macB true]).map (·.2) =
     some [.startOk, .none, .spoofReply macA, .none] := by decide
-example : run {} [.startHunt macA true, .rxRequest macB true, .reply macB] = none := by decide
+example : run {} [.startHunt macA true, .rxRequest macB macB true, .reply macB] = none := by decide
+
+/-- a hunted bridge (macA) relays the request of macB, which is not hunted: no reply is decided;
+    hunted macA asking through the bridge macB gets its reply -/
+example : run {} [.startHunt macA true, .rxRequest macA macB true, .reply macB] = none := by decide
+example : (run {} [.startHunt macA true, .rxRequest macB macA true, .reply macA]).map (·.2) =
+    some [.startOk, .none, .spoofReply macA] := by decide
+
+/-- StopHunt(macB) carrying macA's address removes macB, not macA -/
+example : (run {} [.startHunt macA true, .startHunt macB true, .stopHunt macB [192, 168, 0, 100]]).map
+    (fun p => p.1.hunt) = some [macA] := by decide
 
 /-- Close: no restoring request, the loop just ends -/
 example : (run {} [.startHunt macA true, .close, .check 0, .gate 0, .exitRead 0]).map
